@@ -5,6 +5,7 @@ package main
 // concurrent lint plugins.  Built with -race by checks/c18.py.
 
 import (
+	gocontext "context"
 	"encoding/json"
 	"flag"
 	"fmt"
@@ -280,6 +281,9 @@ func backendServer() (*httptest.Server, string) {
 	return server, fmt.Sprintf("backend example { .host = \"%s\"; .port = \"%s\"; .ssl = false; }\n", u.Hostname(), u.Port())
 }
 
+// kind "X": a client that gives up (its request context is cancelled) a moment after it sent the request -
+// typically while the request waits for the handler.  Whatever happens to that request, every other one must
+// still be answered and the history must stay serialisable.
 func launch(ip *interpreter.Interpreter, r *run, req int, kind string, res *reqResult, wg *sync.WaitGroup) {
 	wg.Add(1)
 	started := make(chan struct{})
@@ -313,6 +317,14 @@ func launch(ip *interpreter.Interpreter, r *run, req int, kind string, res *reqR
 		hr := httptest.NewRequest("GET", "http://localhost/a", nil)
 		hr.Header.Set("X-Marker", fmt.Sprintf("m%d", req))
 		hr.Header.Set("X-Kind", kind)
+		if kind == "X" {
+			ctx, cancel := gocontext.WithCancel(hr.Context())
+			hr = hr.WithContext(ctx)
+			go func() {
+				time.Sleep(time.Duration(50+req*37%400) * time.Microsecond)
+				cancel()
+			}()
+		}
 		if kind == "F" {
 			// the handler refuses a request that already passed through this simulator (loop detection)
 			hr.Header.Set("Fastly-FF", "cache-localsimulator")
@@ -346,6 +358,10 @@ func project(req int, kind string, rr *reqResult, evs []event, actual bool) (obs
 		o.Outcome = "hang"
 		mm = append(mm, map[string]any{"obs": "no-response", "req": req})
 		return o, mm
+	}
+	if kind == "X" {
+		// an abandoned request may have run completely, partly (its origin fetch is cancelled) or not at all
+		o.Exact = false
 	}
 	if kind == "F" {
 		o.Outcome = "refused"
@@ -652,7 +668,7 @@ func cmdFree(args []string) int {
 	out := hx.NewOut()
 	defer out.Close()
 	rng := rand.New(rand.NewSource(hx.Seed()*7919 + int64(runtime.GOMAXPROCS(0))))
-	kinds := []string{"L", "L", "P", "E", "R", "F"}
+	kinds := []string{"L", "L", "P", "E", "R", "F", "X"}
 	for round := 1; round <= *rounds; round++ {
 		n := 2 + rng.Intn(*maxN-1)
 		id := fmt.Sprintf("%s%d", *prefix, round)
@@ -724,7 +740,7 @@ func cmdFree(args []string) int {
 			r.mu.Unlock()
 			o, mm := project(i, ks[i-1], &rr, evs, mode == "actual")
 			res.Mismatch = append(res.Mismatch, mm...)
-			if ks[i-1] == "F" {
+			if ks[i-1] == "F" || (ks[i-1] == "X" && len(o.Flows) == 0) {
 				refused[i] = true
 				continue
 			}
@@ -755,6 +771,7 @@ func cmdFree(args []string) int {
 type pluginWorkload struct {
 	P        int     `json:"p"`
 	K        int     `json:"k"`
+	Nested   bool    `json:"nested"`
 	Expected [][]int `json:"expected"`
 	Count    int     `json:"count"`
 }
@@ -782,6 +799,11 @@ func cmdPlugins(args []string) int {
 			for p := 1; p <= w.P; p++ {
 				fmt.Fprintf(&sb, "  // @plugin: vplug p%d %d %d\n", p, w.K, *batch)
 			}
+			if w.Nested {
+				// the annotated statement has a body in which an ignore range is opened and still open at its end:
+				// the plugins' reports must not be filtered by it (they belong to the statement's entry)
+				sb.WriteString("  if (req.http.A) {\n    // falco-ignore-start\n    set req.http.B = \"1\";\n  }\n  // falco-ignore-end\n")
+			}
 			sb.WriteString("  set req.backend = example;\n  return (lookup);\n}\n")
 			v, err := parser.New(lexer.NewFromString(sb.String())).ParseVCL()
 			if err != nil {
@@ -799,8 +821,8 @@ func cmdPlugins(args []string) int {
 					other = append(other, m)
 				}
 			}
-			res := hx.CaseResult{ID: fmt.Sprintf("pl%d", n), Input: map[string]any{"p": w.P, "k": w.K, "batch": *batch, "run": rep},
-				Class: map[string]any{"mode": "plugins"}, Key: fmt.Sprintf("P=%d K=%d run=%d", w.P, w.K, rep)}
+			res := hx.CaseResult{ID: fmt.Sprintf("pl%d", n), Input: map[string]any{"p": w.P, "k": w.K, "nested": w.Nested, "batch": *batch, "run": rep},
+				Class: map[string]any{"mode": "plugins"}, Key: fmt.Sprintf("P=%d K=%d nested=%v run=%d", w.P, w.K, w.Nested, rep)}
 			missing, dup := 0, 0
 			for _, e := range w.Expected {
 				for j := 0; j < *batch; j++ {
